@@ -356,10 +356,10 @@ def run(tier: str, rd):
             am_stats["drift"][o["clause"]] = am_stats["drift"].get(o["clause"], 0) + 1
             vd.note_drift(f"AsyncExec.tla: {o['clause']}", {**batch[o["viol"] - 1]["_meta"], "run": o.get("run"), "at": o.get("at")})
         # M: every completion order on the model (a part of the batch in the quick tier)
-        # (requests with at most 9 gates: the number of reachable states grows exponentially with the gates that are pending together)
+        # (requests with at most 12 gates: the number of reachable states grows exponentially with the gates that are pending together)
         sized = sorted(((max((len(x["steps"]) for x in rr["runs"]), default=0), k) for k, rr in enumerate(batch)), reverse=True)
-        small = [payload[k] for n_g, k in sized if n_g <= 9]
-        mbatch = small[:30] if tier == "quick" else small[:300]
+        small = [payload[k] for n_g, k in sized if n_g <= 12]
+        mbatch = small[:40] if tier == "quick" else small[:400]
         pm = common.write_cases(rd, f"amM{bi}.json", mbatch)
         r = run_tlc(rd, "MCAsyncExec", "INIT Init\nNEXT Next\nINVARIANT Confluence\nINVARIANT Progress\nINVARIANT Seriality\nINVARIANT Orphans\nCHECK_DEADLOCK FALSE\n",
                     name=f"AsyncExecM{bi}", env={"CASES": str(pm)}, timeout=3400, heap="16g", allow_violation=True)
